@@ -7,7 +7,9 @@ import (
 	"fmt"
 	"go/types"
 	"sort"
+	"strings"
 	"time"
+	"unicode"
 )
 
 // ---------------------------------------------------------------------------
@@ -792,4 +794,127 @@ func (e *Engine) setupSort() {
 	}
 	e.ext["sort.Slice"] = sortSlice
 	e.ext["sort.SliceStable"] = sortSlice
+}
+
+// M-tmpl: text/template for the repository's fixed templates. Parse stores the
+// text; Execute writes the text with every {{.Field}} replaced by the named
+// field of the data struct (text/template does no escaping). Anything else in a
+// template (pipelines, conditionals) is unsupported.
+type tmplState struct {
+	name string
+	text string
+	ok   bool
+}
+
+func (e *Engine) setupTemplate() {
+	x := e.ext
+	// unicode case mapping and classes: real tables for concrete runes; a symbolic
+	// non-ASCII rune is outside the supported subset
+	uni := func(name string, f func(r rune) uint64, w int) {
+		x["unicode."+name] = func(e *Engine, fr *frame, a []value) value {
+			t := a[0].(*Term)
+			if !t.Const {
+				e.end("unsupported", "unicode."+name+" of a symbolic non-ASCII rune")
+			}
+			return BV(w, f(rune(sext(t.V, 32))))
+		}
+	}
+	b2u := func(b bool) uint64 {
+		if b {
+			return 1
+		}
+		return 0
+	}
+	uni("ToLower", func(r rune) uint64 { return uint64(uint32(unicode.ToLower(r))) }, 32)
+	uni("ToUpper", func(r rune) uint64 { return uint64(uint32(unicode.ToUpper(r))) }, 32)
+	uni("ToTitle", func(r rune) uint64 { return uint64(uint32(unicode.ToTitle(r))) }, 32)
+	for name, f := range map[string]func(rune) bool{"IsSpace": unicode.IsSpace, "IsLetter": unicode.IsLetter, "IsDigit": unicode.IsDigit, "IsUpper": unicode.IsUpper, "IsLower": unicode.IsLower, "IsPrint": unicode.IsPrint, "IsPunct": unicode.IsPunct, "IsControl": unicode.IsControl} {
+		f := f
+		x["unicode."+name] = func(e *Engine, fr *frame, a []value) value {
+			t := a[0].(*Term)
+			if !t.Const {
+				e.end("unsupported", "unicode class test of a symbolic non-ASCII rune")
+			}
+			return BoolT(f(rune(sext(t.V, 32))) && b2u(true) == 1)
+		}
+	}
+	tt := func() types.Type { return e.namedType("text/template", "Template") }
+	x["text/template.New"] = func(e *Engine, fr *frame, a []value) value {
+		p := new(value)
+		*p = zero(tt())
+		e.objs[p] = &tmplState{name: mustStr(a[0])}
+		return p
+	}
+	x["(*text/template.Template).Parse"] = func(e *Engine, fr *frame, a []value) value {
+		p := a[0].(*value)
+		st, _ := e.objs[p].(*tmplState)
+		if st == nil {
+			e.end("unsupported", "M-tmpl: Parse on an unknown template")
+		}
+		st.text, st.ok = mustStr(a[1]), true
+		return tuple{p, e.errNil()}
+	}
+	x["text/template.Must"] = func(e *Engine, fr *frame, a []value) value {
+		if a[1].(iface).t != nil {
+			e.rtPanic("template.Must: parse error")
+		}
+		return a[0]
+	}
+	x["(*text/template.Template).Execute"] = func(e *Engine, fr *frame, a []value) value {
+		p, _ := a[0].(*value)
+		st, _ := e.objs[p].(*tmplState)
+		if st == nil || !st.ok {
+			e.end("unsupported", "M-tmpl: Execute on a template that was not parsed by the model")
+		}
+		data := a[2].(iface)
+		var sv structV
+		var stt *types.Struct
+		if pt, ok := data.t.Underlying().(*types.Pointer); ok {
+			stt, _ = pt.Elem().Underlying().(*types.Struct)
+			if dp, ok := data.v.(*value); ok && dp != nil {
+				sv, _ = (*dp).(structV)
+			}
+		} else if s2, ok := data.t.Underlying().(*types.Struct); ok {
+			stt = s2
+			sv, _ = data.v.(structV)
+		}
+		if stt == nil || sv == nil {
+			e.end("unsupported", "M-tmpl: data is not a struct")
+		}
+		out := constStrV("")
+		text := st.text
+		for {
+			i := strings.Index(text, "{{")
+			if i < 0 {
+				out = e.concat(out, constStrV(text))
+				break
+			}
+			j := strings.Index(text[i:], "}}")
+			if j < 0 {
+				e.end("unsupported", "M-tmpl: unterminated action")
+			}
+			out = e.concat(out, constStrV(text[:i]))
+			action := strings.TrimSpace(text[i+2 : i+j])
+			if !strings.HasPrefix(action, ".") || strings.ContainsAny(action[1:], " .|()") {
+				e.end("unsupported", "M-tmpl: action "+action)
+			}
+			found := false
+			for k := 0; k < stt.NumFields(); k++ {
+				if stt.Field(k).Name() == action[1:] {
+					fv, ok := sv[k].(*bytesV)
+					if !ok {
+						e.end("unsupported", "M-tmpl: non-string field "+action)
+					}
+					out = e.concat(out, fv)
+					found = true
+				}
+			}
+			if !found {
+				return e.newErr("template: can't evaluate field " + action[1:])
+			}
+			text = text[i+j+2:]
+		}
+		r := e.callMethod(a[1].(iface), "Write", e.snapshot(out)).(tuple)
+		return r[1]
+	}
 }
